@@ -719,30 +719,32 @@ func (s *Service) ClientClose(client *ClientService) {
 	for i := range s.clients {
 		if s.clients[i] == client {
 
-			// remove registered agents
-			for j := range s.Agents {
+			// remove registered agents (every one this client registered)
+			for j := 0; j < len(s.Agents); {
 				if s.Agents[j] != nil {
 					if s.Agents[j].client == client {
 						logger.Warn(fmt.Sprintf("%v unregistered agent %v", "["+colors.BoldWhite("SERVICE")+"]", "[Name: "+colors.Blue(s.Agents[j].Name)+"]"))
 
 						// remove from list
 						s.Agents = append(s.Agents[:j], s.Agents[j+1:]...)
-						break
+						continue
 					}
 				}
+				j++
 			}
 
-			// remove registered listeners
-			for j := range s.Listeners {
+			// remove registered listeners (every one this client registered)
+			for j := 0; j < len(s.Listeners); {
 				if s.Listeners[j] != nil {
 					if s.Listeners[j].client == client {
 						logger.Warn(fmt.Sprintf("%v unregistered a new listener %v %v", "["+colors.BoldWhite("SERVICE")+"]", "[Name: "+colors.Blue(s.Listeners[j].Name)+"]", "[Agent: "+colors.Blue(s.Listeners[j].Agent)+"]"))
 
 						// remove from list
 						s.Listeners = append(s.Listeners[:j], s.Listeners[j+1:]...)
-						break
+						continue
 					}
 				}
+				j++
 			}
 
 			// close client connection
@@ -755,6 +757,9 @@ func (s *Service) ClientClose(client *ClientService) {
 
 			// remove from list
 			s.clients = append(s.clients[:i], s.clients[i+1:]...)
+
+			// the list just changed under the loop, and the client was in it once
+			break
 		}
 	}
 
